@@ -139,34 +139,49 @@ def run(ctx, rep):
                                          % A.show(c1, 2)[:400])
                         continue
                     rep.discharged(key, clause, derivation="c0 == nf(step A); c1 = %s" % A.show(c1, 1)[:200])
-        # whole-building totals
-        bal = e.field("balance")
-        for fb, fa in WE_AFFINE:
-            lb = leaves(get(bal, "we", fb), ("balance", "we", fb))
-            la = dict((p[3:], t) for p, t, g in leaves(get(bal, "we", fa), ("balance", "we", fa)))
-            for p, t, gates in lb:
-                n_aff += 1
-                key = "C03/total/%s/lm=%d" % (pstr(p), lm)
-                pb = A.scalar(t)
-                twin = la.get(p[3:])
-                c0, c1, ok = k_split(A, pb, kid)
-                hidden = ok and any(K in A.input_syms(x) for x in (c0, c1))
-                if twin is None or not ok or hidden:
-                    rep.violated(key, "%s is affine in k_exp" % pstr(p), construct=where,
-                                 why="k_exp occurs non-linearly or under a condition")
-                elif c0 != A.scalar(twin):
-                    rep.violated(key, "%s at k_exp=0 equals the step A total" % pstr(p), construct=where,
-                                 why="B(0) - A = %s" % A.show(alg.padd(c0, A.scalar(twin), -1), 2)[:300])
-                else:
-                    rep.discharged(key, "%s = A + k_exp*c1" % pstr(p))
-        for grp in ("used", "prod", "del", "exp"):
-            for p, t, gates in leaves(get(bal, grp), ("balance", grp)):
-                n_leaf += 1
-                key = "C03/total/%s/lm=%d" % (pstr(p), lm)
-                if K in tm.free_syms(t):
-                    rep.violated(key, "%s does not depend on k_exp" % pstr(p), construct=where)
-                else:
-                    rep.discharged(key, "%s does not depend on k_exp" % pstr(p), nontrivial=False)
+        # whole-building totals, absolute and per m2
+        for bname, ktag in (("balance", "total"), ("balance_m2", "total_m2")):
+            bal = e.field(bname)
+            for fb, fa in WE_AFFINE:
+                lb = leaves(get(bal, "we", fb), (bname, "we", fb))
+                la = dict((p[3:], t) for p, t, g in leaves(get(bal, "we", fa), (bname, "we", fa)))
+                for p, t, gates in lb:
+                    n_aff += 1
+                    key = "C03/%s/%s/lm=%d" % (ktag, pstr(p), lm)
+                    pb = A.scalar(t)
+                    twin = la.get(p[3:])
+                    c0, c1, ok = k_split(A, pb, kid)
+                    hidden = ok and any(K in A.input_syms(x) for x in (c0, c1))
+                    if twin is None or not ok or hidden:
+                        rep.violated(key, "%s is affine in k_exp" % pstr(p), construct=where,
+                                     why="k_exp occurs non-linearly or under a condition")
+                    elif c0 != A.scalar(twin):
+                        rep.violated(key, "%s at k_exp=0 equals the step A total" % pstr(p), construct=where,
+                                     why="B(0) - A = %s" % A.show(alg.padd(c0, A.scalar(twin), -1), 2)[:300])
+                    else:
+                        rep.discharged(key, "%s = A + k_exp*c1" % pstr(p))
+            # step A and the parts that make it up do not depend on k_exp
+            we_t = get(bal, "we")
+            for f in WE_K_FREE:
+                try:
+                    sub = get(we_t, f)
+                except Exception:      # the whole-building record has fewer fields than the per-carrier one
+                    continue
+                for p, t, gates in leaves(sub, (bname, "we", f)):
+                    n_leaf += 1
+                    key = "C03/%s/%s/lm=%d" % (ktag, pstr(p), lm)
+                    if K in tm.free_syms(t) or any(K in tm.free_syms(g) for g in gates):
+                        rep.violated(key, "%s (step A) does not depend on k_exp" % pstr(p), construct=where)
+                    else:
+                        rep.discharged(key, "%s (step A) does not depend on k_exp" % pstr(p), nontrivial=False)
+            for grp in ("used", "prod", "del", "exp"):
+                for p, t, gates in leaves(get(bal, grp), (bname, grp)):
+                    n_leaf += 1
+                    key = "C03/%s/%s/lm=%d" % (ktag, pstr(p), lm)
+                    if K in tm.free_syms(t):
+                        rep.violated(key, "%s does not depend on k_exp" % pstr(p), construct=where)
+                    else:
+                        rep.discharged(key, "%s does not depend on k_exp" % pstr(p), nontrivial=False)
     rep.analysed = {"k_free_leaves": n_leaf, "affine_leaves": n_aff}
     rep.floor("affine-leaves", n_aff, 2 * (12 * 7))
     rep.floor("k-free-leaves", n_leaf, 2 * 12 * 40)
